@@ -391,7 +391,9 @@ def _hist_cases(rng, tier):
                    if H.present_ancestors(g, [a]) & H.present_ancestors(g, [b])]
             submit, tgt = rng.choice(rel)
             modes = ["2 bundle patch", "2 bundle patch", "2 bundle", "2 patch public"]
-            if fmt == "pack-0.92":
+            fragile = H.has_multiline_prop(spec, range(n)) or any(
+                isinstance(x, str) and x.startswith("=> ") for ops in spec["ops"] for op in ops for x in op[1:])
+            if fmt == "pack-0.92" and not fragile:      # format 1 carries a 0.9 bundle: keep its known findings out
                 modes += ["1 bundle", "1 diff public"]
             yield {"k": "merge", "h": spec, "submit": submit, "tgt": tgt, "mode": rng.choice(modes),
                    "msg": rng.choice([None, "merge it", "m\u00e9ssage"])}
